@@ -741,10 +741,14 @@ with PolarsImpl.impl_store.impl_manager as impl:
         return pl.min_horizontal(*x)
 
     @impl(ops.round)
-    def _round(x, digits):
+    def _round(x, digits, *, _sig):
         digits = pl.select(digits).item()
         if digits < 0:
-            return (x / (10**-digits)).round() * (10**-digits)
+            res = (x / (10**-digits)).round() * (10**-digits)
+            if _sig[0].is_int():
+                # the division turned the integer into a float
+                res = res.cast(types.without_const(_sig[0]).to_polars())
+            return res
         return x.round(digits)
 
     @impl(ops.exp)
